@@ -117,15 +117,10 @@ Proof.
   intros Hres g bi w st E. unfold inner_resume.
   destruct (get g w) as [x|]; [|apply keeps_refl].
   assert (R : forall s, keeps (fun x => In x st /\ x <> g) w
-     (fst (let (w1, r) := run_seg res (g_body x s bi) w in
-        match r with
-        | RYield v s' => (set_i g (PSuspended s') w1, ORet v)
-        | RReturn v => (set_i g PFinished w1, OStop v)
-        | RRaise e => (set_i g PFinished w1, ORaise e)
-        end))).
+     (fst (seg_outcome g (run_seg res (g_body x s bi) w)))).
   { intros s. pose proof (run_seg_frame res Hres (g_body x s bi) w g st E) as F.
-    destruct (run_seg res (g_body x s bi) w) as [w1 r]. cbn [fst] in F.
-    destruct r; cbn [fst]; (apply (keeps_then _ _ _ _ F)); apply keeps_upd_top. }
+    unfold seg_outcome. destruct (snd (run_seg res (g_body x s bi) w)); cbn [fst];
+      (apply (keeps_then _ _ _ _ F)); apply keeps_upd_top. }
   destruct (g_i x); destruct bi as [[v|]|e]; try apply R; try apply keeps_refl;
     cbn [fst]; apply keeps_upd_top.
 Qed.
@@ -409,16 +404,9 @@ Qed.
 Lemma inv_inner_resume g res : res_inv g res -> forall g' bi w, Inv g w -> Inv g (fst (inner_resume res g' bi w)).
 Proof.
   intros Hres g' bi w I. unfold inner_resume. destruct (get g' w) as [x|]; auto.
-  assert (R : forall s, Inv g
-     (fst (let (w1, r) := run_seg res (g_body x s bi) w in
-        match r with
-        | RYield v s' => (set_i g' (PSuspended s') w1, ORet v)
-        | RReturn v => (set_i g' PFinished w1, OStop v)
-        | RRaise e => (set_i g' PFinished w1, ORaise e)
-        end))).
+  assert (R : forall s, Inv g (fst (seg_outcome g' (run_seg res (g_body x s bi) w)))).
   { intros s. pose proof (inv_run_seg g res Hres (g_body x s bi) w I) as J.
-    destruct (run_seg res (g_body x s bi) w) as [w1 r]. cbn [fst] in J.
-    destruct r; cbn [fst]; apply inv_set_i; auto. }
+    unfold seg_outcome. destruct (snd (run_seg res (g_body x s bi) w)); cbn [fst]; apply inv_set_i; auto. }
   destruct (g_i x); destruct bi as [[v|]|e]; try apply R; auto; cbn [fst]; apply inv_set_i; auto.
 Qed.
 
@@ -464,10 +452,10 @@ Proof.
     destruct (H x eq_refl) as [K|K].
     + destruct (g_ctx x) as [c0|]; [|congruence].
       destruct R as [R1 R2]. split; auto. unfold eff in *. cbn.
-      rewrite E3 in R1. destruct (c_own (fin g w)); auto.
+      rewrite E3 in R1. destruct (c_own (fin g w)); [auto | discriminate].
     + destruct (g_ctx x) as [c0|].
       * destruct R as [R1 R2]. split; auto. unfold eff in *. cbn.
-        rewrite E3 in R1. destruct (c_own (fin g w)); auto.
+        rewrite E3 in R1. destruct (c_own (fin g w)); [auto | discriminate].
       * split; [apply R | auto].
 Qed.
 
@@ -579,3 +567,460 @@ Proof.
   apply (inv_run_script g (resume legacy fuel) (inv_resume g legacy fuel) script (init_world bodies)).
   apply inv_init.
 Qed.
+
+(* ========================================================= transparency *)
+(* Simulation between the world driven through the wrapper (resume false)
+   and the world in which the inner automata are driven directly (dresume). *)
+Definition strel (ws : wstate) (ia ib : pstate) : Prop :=
+  match ws with
+  | WUnstarted => ia = PUnstarted /\ ib = PUnstarted
+  | WSuspended => ia = ib /\ exists s, ib = PSuspended s
+  | WFinished => ib = PFinished
+  end.
+Definition grel (loose : Prop) (oa ob : option gen) : Prop :=
+  match oa, ob with
+  | None, None => True
+  | Some a, Some b =>
+      g_body a = g_body b /\ g_ctx a = g_ctx b /\ (loose \/ strel (g_w a) (g_i a) (g_i b))
+  | _, _ => False
+  end.
+Definition Rl (L : gid -> Prop) (w d : world) : Prop :=
+  w_main w = w_main d /\ w_stack w = w_stack d /\ w_trace w = w_trace d /\
+  forall x, grel (L x) (get x w) (get x d).
+(* generators that are running have their protocol state rewritten when they stop *)
+Definition R (w d : world) : Prop := Rl (fun x => In x (w_stack w)) w d.
+Definition Rloose (g : gid) (w d : world) : Prop := Rl (fun x => x = g \/ In x (w_stack w)) w d.
+
+Lemma grel_weaken (P Q : Prop) oa ob : (P -> Q) -> grel P oa ob -> grel Q oa ob.
+Proof. unfold grel. destruct oa, ob; intuition. Qed.
+Lemma Rl_weaken (L L' : gid -> Prop) w d : (forall x, L x -> L' x) -> Rl L w d -> Rl L' w d.
+Proof. intros H (a & b & c & e). repeat split; auto. intros x. eapply grel_weaken; [apply H | apply e]. Qed.
+Lemma Rl_emit L e w d : Rl L w d -> Rl L (emit e w) (emit e d).
+Proof. intros (a & b & c & f). repeat split; cbn; auto. congruence. Qed.
+Lemma Rl_push L g w d : Rl L w d -> Rl L (push g w) (push g d).
+Proof. intros (a & b & c & f). repeat split; cbn; auto. congruence. Qed.
+Lemma Rl_pop L w d : Rl L w d -> Rl L (pop w) (pop d).
+Proof. intros (a & b & c & f). repeat split; cbn; auto. congruence. Qed.
+Lemma Rl_upd L g f f' w d :
+  Rl L w d ->
+  (forall a b, grel (L g) (Some a) (Some b) -> grel (L g) (Some (f a)) (Some (f' b))) ->
+  Rl L (upd_gen g f w) (upd_gen g f' d).
+Proof.
+  intros (a & b & c & e) H. repeat split; auto. intros x.
+  destruct (Nat.eq_dec g x) as [<-|N].
+  - rewrite !get_upd_eq. specialize (e g).
+    destruct (get g w) as [ga|], (get g d) as [gb|]; cbn [option_map]; auto.
+  - rewrite !get_upd_neq by auto. apply e.
+Qed.
+Lemma Rl_upd_left L g f w d :
+  Rl L w d ->
+  (forall a b, grel (L g) (Some a) (Some b) -> grel (L g) (Some (f a)) (Some b)) ->
+  Rl L (upd_gen g f w) d.
+Proof.
+  intros (a & b & c & e) H. repeat split; auto. intros x.
+  destruct (Nat.eq_dec g x) as [<-|N].
+  - rewrite get_upd_eq. specialize (e g).
+    destruct (get g w) as [ga|], (get g d) as [gb|]; cbn [option_map]; auto.
+  - rewrite get_upd_neq by auto. apply e.
+Qed.
+
+Lemma Rl_cur_ctx L w d : Rl L w d -> cur_ctx w = cur_ctx d.
+Proof.
+  intros (a & b & c & e). unfold cur_ctx. rewrite <- b. destruct (w_stack w) as [|g st]; auto.
+  specialize (e g). destruct (get g w) as [ga|], (get g d) as [gb|]; cbn in e; try tauto.
+  destruct e as (_ & e & _). now rewrite e.
+Qed.
+Lemma Rl_who L w d : Rl L w d -> who w = who d.
+Proof. intros (a & b & c & e). unfold who. now rewrite b. Qed.
+
+Lemma do_op_stack o w : w_stack (fst (do_op o w)) = w_stack w.
+Proof.
+  unfold do_op. destruct (apply_op o (cur_ctx w)); cbn; auto.
+  unfold set_cur_ctx. destruct (w_stack w) eqn:E; cbn; auto.
+Qed.
+
+Lemma Rl_set_cur_ctx L c w d : Rl L w d -> Rl L (set_cur_ctx c w) (set_cur_ctx c d).
+Proof.
+  intros H. pose proof H as (a & b & e & f). unfold set_cur_ctx. rewrite <- b.
+  destruct (w_stack w) as [|g st] eqn:E.
+  - repeat split; cbn; auto.
+  - unfold set_ctx. apply Rl_upd; auto. intros ga gb. cbn. intuition.
+Qed.
+
+Lemma Rl_do_op L o w d :
+  Rl L w d -> Rl L (fst (do_op o w)) (fst (do_op o d)) /\ snd (do_op o w) = snd (do_op o d).
+Proof.
+  intros H. unfold do_op. rewrite <- (Rl_cur_ctx L w d H), <- (Rl_who L w d H).
+  destruct (apply_op o (cur_ctx w)) as [a|]; cbn [fst snd]; split; auto.
+  - pose proof (Rl_set_cur_ctx L a w d H) as H'.
+    rewrite <- (Rl_cur_ctx L _ _ H'). apply Rl_emit. exact H'.
+  - apply Rl_emit. exact H.
+Qed.
+
+Lemma R_do_op o w d : R w d -> R (fst (do_op o w)) (fst (do_op o d)) /\ snd (do_op o w) = snd (do_op o d).
+Proof.
+  intros H. unfold R in *. rewrite do_op_stack. apply Rl_do_op. exact H.
+Qed.
+
+Definition sim (rw rd : resumer) : Prop :=
+  forall g i w d, R w d -> R (fst (rw g i w)) (fst (rd g i d)) /\ snd (rw g i w) = snd (rd g i d).
+
+Lemma run_seg_sim rw rd : sim rw rd ->
+  forall sg w d, R w d ->
+  R (fst (run_seg rw sg w)) (fst (run_seg rd sg d)) /\ snd (run_seg rw sg w) = snd (run_seg rd sg d).
+Proof.
+  intros Hs. induction sg as [h k IH|h k IH|k IH|g' i k IH|v s|v|e]; intros w d H; cbn [run_seg]; auto.
+  - apply IH. apply R_do_op. exact H.
+  - destruct (R_do_op (OpExit h) w d H) as [H1 H2].
+    destruct (do_op (OpExit h) w) as [w1 ok], (do_op (OpExit h) d) as [d1 ok']. cbn [fst snd] in *. subst ok'.
+    destruct ok; auto.
+  - apply IH. apply R_do_op. exact H.
+  - destruct (Hs g' i w d H) as [H1 H2].
+    destruct (rw g' i w) as [w1 o], (rd g' i d) as [d1 o']. cbn [fst snd] in *. subst o'. apply IH. exact H1.
+Qed.
+
+(* what is known about g when its body stops *)
+Definition Gpost (g : gid) (o : outcome) (w d : world) : Prop :=
+  match get g w, get g d with
+  | Some a, Some b =>
+      g_i a = g_i b /\ match o with ORet _ => exists s, g_i b = PSuspended s | _ => g_i b = PFinished end
+  | _, _ => True
+  end.
+
+Lemma stop_sim g st w1 d1 (o : outcome) stw :
+  R w1 d1 -> w_stack w1 = g :: stw ->
+  (match o with ORet _ => exists s, st = PSuspended s | _ => st = PFinished end) ->
+  Rloose g (pop (set_i g st w1)) (pop (set_i g st d1)) /\
+  Gpost g o (pop (set_i g st w1)) (pop (set_i g st d1)) /\
+  w_stack (pop (set_i g st w1)) = stw.
+Proof.
+  intros HR Es Ho. split; [|split].
+  - unfold Rloose. apply Rl_pop. unfold set_i.
+    assert (HL : Rl (fun x => x = g \/ In x stw) w1 d1).
+    { eapply Rl_weaken; [|exact HR]. cbn. rewrite Es. intros x [<-|Hx]; auto. }
+    cbn [pop w_stack upd_gen]. rewrite Es. cbn [tl].
+    apply Rl_upd; auto. intros ga gb. cbn. intuition.
+  - unfold Gpost, pop, set_i, get. cbn.
+    rewrite !nth_error_upd_nth_eq.
+    destruct (nth_error (w_gens w1) g), (nth_error (w_gens d1) g); cbn; auto.
+  - cbn. rewrite Es. reflexivity.
+Qed.
+
+Lemma seg_outcome_sim g p1 p2 stw :
+  R (fst p1) (fst p2) -> snd p1 = snd p2 -> w_stack (fst p1) = g :: stw ->
+  let r1 := seg_outcome g p1 in
+  let r2 := seg_outcome g p2 in
+  snd r1 = snd r2 /\ Rloose g (pop (fst r1)) (pop (fst r2)) /\
+  Gpost g (snd r1) (pop (fst r1)) (pop (fst r2)) /\ w_stack (pop (fst r1)) = stw.
+Proof.
+  intros HR E Es. cbn zeta. unfold seg_outcome. rewrite <- E.
+  destruct (snd p1) as [v s'|v|e]; cbn [fst snd]; (split; [reflexivity|]).
+  - apply (stop_sim g (PSuspended s') _ _ (ORet v)); eauto.
+  - apply (stop_sim g PFinished _ _ (OStop v)); eauto.
+  - apply (stop_sim g PFinished _ _ (ORaise e)); eauto.
+Qed.
+
+Lemma ctx_run_eq g f w : ctx_run g f w = (pop (fst (f (push g w))), snd (f (push g w))).
+Proof. unfold ctx_run. destruct (f (push g w)); reflexivity. Qed.
+
+Lemma ctx_run_sim rw rd : sim rw rd -> res_frame rw ->
+  forall g bi w d a b,
+  Rloose g w d -> ~ In g (w_stack w) ->
+  get g w = Some a -> get g d = Some b -> g_i a = g_i b ->
+  (g_i b = PUnstarted /\ bi = BSend None) \/ (exists s, g_i b = PSuspended s) ->
+  let r1 := ctx_run g (inner_resume rw g bi) w in
+  let r2 := ctx_run g (inner_resume rd g bi) d in
+  snd r1 = snd r2 /\ Rloose g (fst r1) (fst r2) /\ Gpost g (snd r1) (fst r1) (fst r2) /\
+  w_stack (fst r1) = w_stack w.
+Proof.
+  intros Hs Hf g bi w d a b H Hg Ga Gb Ei Hst. cbn zeta. rewrite !ctx_run_eq. cbn [fst snd].
+  assert (HP : R (push g w) (push g d)).
+  { unfold R. apply Rl_push. eapply Rl_weaken; [|exact H]. cbn. intros x [->|Hx]; auto. }
+  assert (Body : g_body a = g_body b).
+  { destruct H as (_ & _ & _ & e). specialize (e g). rewrite Ga, Gb in e. apply e. }
+  assert (GO : forall s,
+     inner_resume rw g bi (push g w) = seg_outcome g (run_seg rw (g_body a s bi) (push g w)) ->
+     inner_resume rd g bi (push g d) = seg_outcome g (run_seg rd (g_body b s bi) (push g d)) ->
+     snd (inner_resume rw g bi (push g w)) = snd (inner_resume rd g bi (push g d)) /\
+     Rloose g (pop (fst (inner_resume rw g bi (push g w)))) (pop (fst (inner_resume rd g bi (push g d)))) /\
+     Gpost g (snd (inner_resume rw g bi (push g w))) (pop (fst (inner_resume rw g bi (push g w))))
+           (pop (fst (inner_resume rd g bi (push g d)))) /\
+     w_stack (pop (fst (inner_resume rw g bi (push g w)))) = w_stack w).
+  { intros s -> ->. rewrite <- Body.
+    pose proof (run_seg_sim rw rd Hs (g_body a s bi) (push g w) (push g d) HP) as [S1 S2].
+    pose proof (run_seg_frame rw Hf (g_body a s bi) (push g w) g (w_stack w) eq_refl) as (_ & Es & _).
+    apply seg_outcome_sim; auto. }
+  unfold inner_resume in GO |- *.
+  change (get g (push g w)) with (get g w) in *. change (get g (push g d)) with (get g d) in *.
+  rewrite Ga, Gb in *. rewrite Ei in *.
+  destruct Hst as [[E ->]|[s E]]; rewrite E in *.
+  - apply (GO 0); reflexivity.
+  - apply (GO s); reflexivity.
+Qed.
+
+Lemma close_sim g o w1 d1 :
+  Rloose g w1 d1 -> Gpost g o w1 d1 ->
+  R (set_w g (match o with ORet _ => WSuspended | _ => WFinished end) w1) d1.
+Proof.
+  intros (a & b & c & e) P. unfold R. repeat split; auto. intros x.
+  change (w_stack (set_w g match o with ORet _ => WSuspended | _ => WFinished end w1)) with (w_stack w1).
+  destruct (Nat.eq_dec g x) as [<-|N].
+  - unfold set_w. rewrite get_upd_eq. specialize (e g). unfold Gpost in P.
+    destruct (get g w1) as [ga|], (get g d1) as [gb|]; cbn [option_map]; auto.
+    cbn in *. destruct e as (e1 & e2 & _). destruct P as [P1 P2].
+    split; auto. split; auto. right.
+    destruct o; cbn; auto.
+  - unfold set_w. rewrite get_upd_neq by auto. eapply grel_weaken; [|apply e].
+    intros [->|H]; [congruence | auto].
+Qed.
+
+Lemma tramp_sim rw rd : sim rw rd -> res_frame rw ->
+  forall g bi w d a b,
+  Rloose g w d -> ~ In g (w_stack w) ->
+  get g w = Some a -> get g d = Some b -> g_i a = g_i b ->
+  (g_i b = PUnstarted /\ bi = BSend None) \/ (exists s, g_i b = PSuspended s) ->
+  R (fst (tramp false rw g bi w)) (fst (ctx_run g (inner_resume rd g bi) d)) /\
+  snd (tramp false rw g bi w) = snd (ctx_run g (inner_resume rd g bi) d).
+Proof.
+  intros Hs Hf g bi w d a b H Hg Ga Gb Ei Hst. unfold tramp.
+  pose proof (ctx_run_sim rw rd Hs Hf g bi w d a b H Hg Ga Gb Ei Hst) as (E & Hl & P & _).
+  cbn zeta in *.
+  destruct (ctx_run g (inner_resume rw g bi) w) as [w1 o].
+  destruct (ctx_run g (inner_resume rd g bi) d) as [d1 o']. cbn [fst snd] in *. subst o'.
+  destruct o as [v|v|e]; cbn [fst snd]; (split; [|reflexivity]).
+  - apply (close_sim g (ORet v)); auto.
+  - apply (close_sim g (OStop v)); auto.
+  - apply (close_sim g (ORaise e)); auto.
+Qed.
+
+Lemma R_loose g w d : R w d -> Rloose g w d.
+Proof. apply Rl_weaken. auto. Qed.
+
+Lemma R_get g w d : R w d -> ~ In g (w_stack w) ->
+  match get g w, get g d with
+  | Some a, Some b => g_body a = g_body b /\ g_ctx a = g_ctx b /\ strel (g_w a) (g_i a) (g_i b)
+  | None, None => True
+  | _, _ => False
+  end.
+Proof.
+  intros (_ & _ & _ & e) Hg. specialize (e g). unfold grel in e.
+  destruct (get g w), (get g d); auto. intuition.
+Qed.
+
+(* the protocol applied to the wrapper = the protocol applied to the inner generator *)
+Lemma wrapper_direct_sim rw rd : sim rw rd -> res_frame rw ->
+  forall g i w d, R w d -> ~ In g (w_stack w) ->
+  R (fst (wrapper_resume false rw g i w)) (fst (direct_resume rd g i d)) /\
+  snd (wrapper_resume false rw g i w) = snd (direct_resume rd g i d).
+Proof.
+  intros Hs Hf g i w d H Hg. pose proof (R_get g w d H Hg) as G.
+  unfold wrapper_resume, direct_resume.
+  destruct (get g w) as [a|] eqn:Ga; destruct (get g d) as [b|] eqn:Gb; try (exfalso; exact G).
+  2:{ split; auto. }
+  destruct G as (Eb & Ec & St).
+  assert (Fin1 : forall (o : outcome), g_i b = PUnstarted ->
+            R (set_w g WFinished w) (set_i g PFinished d)).
+  { intros _ _. destruct H as (h1 & h2 & h3 & h4). unfold R. repeat split; auto.
+    intros x. change (w_stack (set_w g WFinished w)) with (w_stack w).
+    unfold set_w, set_i. destruct (Nat.eq_dec g x) as [<-|N].
+    - rewrite !get_upd_eq, Ga, Gb. cbn. auto.
+    - rewrite !get_upd_neq by auto. apply h4. }
+  destruct (g_w a) eqn:Wa; cbn in St.
+  - (* not started *)
+    destruct St as [Sa Sb]. rewrite Sb.
+    assert (Start :
+      R (fst (tramp false rw g (BSend None) (set_w g WSuspended (set_ctx g (Some (copy_ctx (cur_ctx w))) w))))
+        (fst (ctx_run g (inner_resume rd g (BSend None)) (set_ctx g (Some (copy_ctx (cur_ctx d))) d))) /\
+      snd (tramp false rw g (BSend None) (set_w g WSuspended (set_ctx g (Some (copy_ctx (cur_ctx w))) w))) =
+      snd (ctx_run g (inner_resume rd g (BSend None)) (set_ctx g (Some (copy_ctx (cur_ctx d))) d))).
+    { apply (tramp_sim rw rd Hs Hf g (BSend None) _ _
+               (mkgen (g_body a) (Some (copy_ctx (cur_ctx w))) WSuspended (g_i a))
+               (mkgen (g_body b) (Some (copy_ctx (cur_ctx d))) (g_w b) (g_i b))); auto.
+      - rewrite <- (Rl_cur_ctx _ w d H). unfold Rloose.
+        change (w_stack (set_w g WSuspended (set_ctx g (Some (copy_ctx (cur_ctx w))) w))) with (w_stack w).
+        unfold set_w. apply Rl_upd_left.
+        + unfold set_ctx. apply Rl_upd; [apply R_loose; exact H|]. intros ga gb. cbn. intuition.
+        + intros ga gb. cbn. intuition.
+      - unfold set_w, set_ctx. rewrite !get_upd_eq, Ga. reflexivity.
+      - unfold set_ctx. rewrite get_upd_eq, Gb. reflexivity.
+      - cbn. congruence. }
+    destruct i as [|[v|]|e|]; auto; cbn [fst snd]; split; auto.
+    + apply (Fin1 (ORet None)); auto.
+    + apply (Fin1 (ORet None)); auto.
+  - (* suspended *)
+    destruct St as [Sa [s Sb]]. rewrite Sb.
+    assert (Tr : forall bi,
+      R (fst (tramp false rw g bi w)) (fst (ctx_run g (inner_resume rd g bi) d)) /\
+      snd (tramp false rw g bi w) = snd (ctx_run g (inner_resume rd g bi) d)).
+    { intros bi. apply (tramp_sim rw rd Hs Hf g bi w d a b); auto. apply R_loose; auto. right. eauto. }
+    destruct i as [|v|e|]; try apply Tr.
+    destruct (Tr (BThrow GeneratorExit)) as [T1 T2].
+    destruct (tramp false rw g (BThrow GeneratorExit) w) as [w1 o].
+    destruct (ctx_run g (inner_resume rd g (BThrow GeneratorExit)) d) as [d1 o']. cbn [fst snd] in *.
+    subst o'. auto.
+  - (* finished *)
+    rewrite St. destruct i; auto.
+Qed.
+
+Lemma resume_sim fuel : sim (resume false fuel) (dresume fuel).
+Proof.
+  induction fuel as [|f IH]; intros g i w d H; cbn [resume dresume]; auto.
+  rewrite <- (Rl_who _ w d H), <- (Rl_cur_ctx _ w d H).
+  set (e := ECall (who w) g i (cur_ctx w)).
+  assert (H0 : R (emit e w) (emit e d)) by (apply Rl_emit; exact H).
+  change (w_stack (emit e d)) with (w_stack d). change (w_stack (emit e w)) with (w_stack w).
+  destruct H as (h1 & h2 & h3 & h4). rewrite <- h2.
+  destruct (mem g (w_stack w)) eqn:M.
+  - cbn [fst snd]. split; auto.
+    rewrite <- (Rl_who _ _ _ H0), <- (Rl_cur_ctx _ _ _ H0). apply Rl_emit. exact H0.
+  - apply mem_false in M.
+    destruct (wrapper_direct_sim (resume false f) (dresume f) IH (resume_frame false f) g i
+                (emit e w) (emit e d) H0 M) as [S1 S2].
+    destruct (wrapper_resume false (resume false f) g i (emit e w)) as [w1 o].
+    destruct (direct_resume (dresume f) g i (emit e d)) as [d1 o']. cbn [fst snd] in *. subst o'.
+    split; auto.
+    rewrite <- (Rl_who _ _ _ S1), <- (Rl_cur_ctx _ _ _ S1). apply Rl_emit. exact S1.
+Qed.
+
+Lemma run_script_sim rw rd : sim rw rd ->
+  forall script w d, R w d -> R (run_script rw script w) (run_script rd script d).
+Proof.
+  intros Hs. induction script as [|st script IH]; intros w d H; cbn; auto.
+  apply IH. destruct st; cbn [run_dstep]; auto; try (apply R_do_op; auto). apply Hs; auto.
+Qed.
+
+Lemma R_refl_init bodies : R (init_world bodies) (init_world bodies).
+Proof.
+  unfold R. repeat split; auto. intros x. unfold grel, get, init_world. cbn.
+  rewrite nth_error_map. destruct (nth_error bodies x); cbn; auto.
+Qed.
+
+(* C15, third clause: everything observable (every value returned by
+   next/send/throw/close, StopIteration values, exceptions, every context
+   probe of every party, nested resumptions included) is the same whether the
+   driver talks to the wrapper or to the generator itself. *)
+Theorem transparent fuel bodies script :
+  w_trace (run_wrapped fuel bodies script) = w_trace (run_direct fuel bodies script) /\
+  w_main (run_wrapped fuel bodies script) = w_main (run_direct fuel bodies script).
+Proof.
+  pose proof (run_script_sim _ _ (resume_sim fuel) script _ _ (R_refl_init bodies)) as (a & b & c & _).
+  split; auto.
+Qed.
+
+(* ------------------------------------------------- script-level corollaries *)
+Lemma run_script_stack legacy fuel script : forall w,
+  w_stack (run_script (resume legacy fuel) script w) = w_stack w.
+Proof.
+  unfold run_script. induction script as [|st script IH]; intros w; cbn [fold_left]; auto.
+  rewrite IH. destruct st; cbn [run_dstep]; auto; try apply do_op_stack.
+  apply (resume_frame legacy fuel g i w).
+Qed.
+
+(* every DResume of every script leaves the driver where it was: still in the
+   thread's own context, whose content (current action and tokens) is unchanged *)
+Theorem driver_unchanged_script fuel bodies script g i :
+  let w := run_wrapped fuel bodies script in
+  let w' := run_dstep (resume false fuel) (DResume g i) w in
+  w_stack w = [] /\ w_stack w' = [] /\ w_main w' = w_main w /\ cur_ctx w' = cur_ctx w.
+Proof.
+  cbn zeta. unfold run_wrapped.
+  assert (S : w_stack (run_script (resume false fuel) script (init_world bodies)) = []).
+  { rewrite run_script_stack. reflexivity. }
+  cbn [run_dstep].
+  destruct (driver_unchanged false fuel g i (run_script (resume false fuel) script (init_world bodies)))
+    as (a & b & c).
+  repeat split; auto. congruence.
+Qed.
+
+Theorem own_context_wrapped fuel bodies script g :
+  chain g cinit (hist (run_wrapped fuel bodies script)).
+Proof. apply own_context. Qed.
+
+Theorem transparent_tables fuel ts script :
+  run_tables false fuel ts script = run_tables_direct fuel ts script.
+Proof.
+  unfold run_tables, run_tables_direct, observe.
+  destruct (transparent fuel (map table_body ts) script) as [a b].
+  unfold run_wrapped, run_direct in *. rewrite a, b. reflexivity.
+Qed.
+
+(* --------------------------------------------------------------- examples *)
+Definition RI : tseg := ([], TRaise XInput).
+
+(* x = yield 1; return x *)
+Definition t_ret : table :=
+  [ (([], TYield (VConst (Some 1)) 1), RI, RI); (([], TReturn VInput), RI, RI) ].
+Definition s_ret := [DResume 0 Next; DResume 0 (Send (Some 5))].
+
+Example ex_ret_wrapped :
+  run_tables false 3 [t_ret] s_ret =
+  ([BCall None 0 Next None; BRet None 0 (ORet (Some 1)) None;
+    BCall None 0 (Send (Some 5)) None; BRet None 0 (OStop (Some 5)) None], None).
+Proof. vm_compute. reflexivity. Qed.
+
+(* the wrapper before the fix (`break`): the return value is dropped, so
+   transparency is false of it -- the one-yield witness *)
+Theorem transparent_legacy_refuted :
+  exists fuel bodies script,
+    w_trace (run_legacy fuel bodies script) <> w_trace (run_direct fuel bodies script).
+Proof.
+  exists 3, [table_body t_ret], s_ret. vm_compute. discriminate.
+Qed.
+
+(* an action spanning a yield; the driver starts the generator inside its own
+   action 1, leaves it, and resumes the generator from no action at all *)
+Definition t_span : table :=
+  [ (([TProbe; TEnter 10; TProbe], TYield (VConst (Some 1)) 1), RI, RI);
+    (([TProbe; TExit 10; TProbe], TReturn (VConst (Some 2))),
+     ([TExit 10], TRaise XInput), ([TExit 10], TRaise XInput)) ].
+Definition s_span :=
+  [DCreate 0; DEnter 1; DResume 0 Next; DProbe; DExit 1; DProbe; DResume 0 Next; DProbe].
+
+Example ex_span :
+  run_tables false 3 [t_span] s_span =
+  ([BOp None (OpEnter 1) true None (Some 1);
+    BCall None 0 Next (Some 1);
+    BOp (Some 0) OpProbe true (Some 1) (Some 1);
+    BOp (Some 0) (OpEnter 10) true (Some 1) (Some 10);
+    BOp (Some 0) OpProbe true (Some 10) (Some 10);
+    BRet None 0 (ORet (Some 1)) (Some 1);
+    BOp None OpProbe true (Some 1) (Some 1);
+    BOp None (OpExit 1) true (Some 1) None;
+    BOp None OpProbe true None None; BCall None 0 Next None;
+    BOp (Some 0) OpProbe true (Some 10) (Some 10);
+    BOp (Some 0) (OpExit 10) true (Some 10) (Some 1);
+    BOp (Some 0) OpProbe true (Some 1) (Some 1);
+    BRet None 0 (OStop (Some 2)) None; BOp None OpProbe true None None], None).
+Proof. vm_compute. reflexivity. Qed.
+
+(* the chain predicate is not vacuous: it rejects a trace in which a generator
+   started from action 1 sees no action (context copied at the wrong time, or
+   send() outside context.run) ... *)
+Example chain_rejects_wrong_context :
+  ~ chain 0 cinit [ECall None 0 Next (mkctx (Some 1) []);
+                   EOp (Some 0) OpProbe true (mkctx None []) (mkctx None [])].
+Proof.
+  cbn. intros [_ [H _]]. destruct (H eq_refl) as [E _]. discriminate.
+Qed.
+(* ... and one in which the driver's later context leaks into the generator *)
+Example chain_rejects_leak :
+  ~ chain 0 cinit [ECall None 0 Next (mkctx None []);
+                   EOp (Some 0) OpProbe true (mkctx None []) (mkctx None []);
+                   EOp None (OpEnter 1) true (mkctx None []) (mkctx (Some 1) [(1, None)]);
+                   ECall None 0 Next (mkctx (Some 1) [(1, None)]);
+                   EOp (Some 0) OpProbe true (mkctx (Some 1) []) (mkctx (Some 1) [])].
+Proof.
+  cbn. intros (_ & _ & _ & _ & H & _). destruct (H eq_refl) as [E _]. discriminate.
+Qed.
+(* and it accepts (by own_context) the run above, in which the hypotheses of
+   every clause are exercised: 6 operations by generator 0 *)
+Example ex_span_ops :
+  length (filter (fun e => match e with EOp (Some 0) _ _ _ _ => true | _ => false end)
+                 (hist (run_wrapped 3 [table_body t_span] s_span))) = 6.
+Proof. vm_compute. reflexivity. Qed.
+(* driver_unchanged is about a state where the two contexts really differ *)
+Example ex_driver_differs :
+  let w := run_wrapped 3 [table_body t_span] [DEnter 1; DResume 0 Next] in
+  cur (w_main w) = Some 1 /\
+  option_map cur (match get 0 w with Some x => g_ctx x | None => None end) = Some (Some 10).
+Proof. vm_compute. auto. Qed.
